@@ -55,6 +55,24 @@ CHECKS["C17"] = {
     "text": "For the same catalogue and all geometries within the bound: an exception escaping construction is a ValueError/TypeError/NotImplementedError/IndexError (any other type, e.g. AssertionError or KeyError, is a violation), and a construction that succeeds yields operations whose key function and block function raise for no block coordinate, whose keys name existing blocks and whose blocks fit their regions. Known finding: scan's internal assertion (listed by signature; any other violation still fails the check).",
     "note": _GEOM_NOTE + " Data-dependent failures inside NumPy and executor/storage faults are outside.",
 }
+CHECKS["C05"] = {
+    "engine": "sx",
+    "technique": "bounded symbolic execution (z3) of the real rechunk/store construction: per-dimension grid lemma (task-grid boundaries are storage-grid boundaries) over the real plan",
+    "text": "For rechunk (regular and irregular intermediate grids, every memory budget that changes the copy chunks), store into existing arrays with their own chunking, sharded targets, region stores, to_zarr to a path and catalogue operations, with symbolic shape/chunk sizes/budget/region: every boundary of an operation's task (write) grid is a boundary of the storage grid of the array it writes (regular or rectilinear), the storage grid tiles the array, and the task iterable enumerates each write cell exactly once -- hence each stored chunk has one writer that writes it whole. ChunkKeys.range equals the slice of itertools.product.",
+    "note": _GEOM_NOTE + " Single-stage rechunk plans (min_mem=1) in quick; 2-D rechunks in the thorough tier; multi-stage plans under C14. Atomicity of one key write is the storage contract.",
+}
+CHECKS["C11"] = {
+    "engine": "sx",
+    "technique": "bounded symbolic execution (z3) of real store/_store_array/to_zarr construction and tasks on abstract blocks: per-element provenance vs region semantics",
+    "text": "For stores into existing targets (any chunking), sharded targets, paths and regions with symbolic geometry: a target element inside the region receives source element (e - region.start), an element outside the region is written by no task, blocks fit their write regions, misaligned or wrongly shaped regions and mismatched source/target/region lists are rejected with ValueError at build time (iff they are invalid).",
+    "note": _GEOM_NOTE + " The aliasing side of store (one lazy source stored to several targets; eager vs lazy histories) has no symbolic domain and is outside the claim (DESIGN.md C10/C11).",
+}
+CHECKS["C13"] = {
+    "engine": "sx",
+    "technique": "bounded symbolic execution (z3): real construction + real finalization/optimizer on symbolic geometry (task counts); real executor loops on scheduler stubs with symbolic completion orders (events)",
+    "text": "(a) For every operation of the real finalized plans (optimize on and off) of rechunks, stores (existing/sharded/region/path), multi-output ops and catalogue operations, num_tasks equals the length of the task iterable, tasks are distinct, the plan total is the sum and create-arrays creates each lazy array once. (b) see C07 harness: per operation one start, num_tasks task-ends, one end, in order, for every schedule in the bound.",
+    "note": _GEOM_NOTE + " Event part uses stubs/sched.py (asyncio.wait/Future/aiostream contracts).",
+}
 for p in PENDING:
     if p not in CHECKS:
         NOT_APPLICABLE[p] = "check not built yet in this revision (planned, see DESIGN.md §5)"
